@@ -1613,9 +1613,36 @@ func c15R3(c *Ctx) {
 	for _, g := range applied {
 		isApplied[g] = true
 	}
-	appliedClass := func(cond ssa.Value) (bool, bool) {
+	var appliedClass c13CondClass
+	appliedClass = func(cond ssa.Value) (bool, bool) {
 		call, ok := cond.(*ssa.Call)
-		return ok && isApplied[StaticCallee(call)], false
+		if !ok {
+			return false, false
+		}
+		if isApplied[StaticCallee(call)] {
+			return true, false
+		}
+		// slices.ContainsFunc(declarations, pred): true ⇒ some declaration satisfies pred; counts when pred's true does
+		if CalleeName(call) == "slices.ContainsFunc" && len(call.Call.Args) == 2 {
+			var K *ssa.Function
+			switch k := strip(call.Call.Args[1]).(type) {
+			case *ssa.MakeClosure:
+				K = k.Fn.(*ssa.Function)
+			case *ssa.Function:
+				K = k
+			}
+			if K != nil && len(K.Blocks) > 0 {
+				cf := c13NewCondFacts(K, appliedClass)
+				all := true
+				for _, a := range RetAtoms(K, 0) {
+					if !cf.Implies(a.Val, true, 0) && c13AtomReach(K.Blocks[0], 0, a, newCut().Edges(cf.list()...)) {
+						all = false
+					}
+				}
+				return all, false
+			}
+		}
+		return false, false
 	}
 	// okList: every way the list value v (used at `target` in fn) is established is either the filter's
 	// result (directly or through a helper all of whose results are), or — only where the server may have
